@@ -221,7 +221,12 @@ def _inputs(point_rings, order):
 def _run(prog, x):
     regs = programs.run_program(prog, [x], ExactBackend())
     out = regs[prog['outputs'][0]]
-    return numpy.atleast_1d(numpy.asarray(out, dtype=object))
+    out = numpy.atleast_1d(numpy.asarray(out, dtype=object)).copy()
+    # entries that never met an input (a plain constant written into a buffer) are constants
+    for idx in numpy.ndindex(*out.shape):
+        if not isinstance(out[idx], Jet):
+            out[idx] = Jet.const(_frac(out[idx]), x[0])
+    return out
 
 
 def point_derivatives(prog, x):
